@@ -587,6 +587,7 @@ def stepProvCore (d : ProvDrv) (a : Acc) (s : Step) : ProvDrv × Acc :=
   | "misb" =>
     let c := s.op.get "c"
     let o := s.ob "r"
+    if o.get "stage" == "badop" then ({ impl := after }, (a.tag "misb-badop").cmp s.lineNo "misb.res" "err" res) else
     let x := st.get c
     let vals := s.op.pairs "vals"
     let tv := if s.op.get "tvals" == "same" then vals else s.op.pairs "tvals"
